@@ -351,7 +351,88 @@ def check_c13(pid, tier, t0, replay_key):
                          f"./check {pid} --tier {tier}", replay_key)
 
 
+# ---------------------------------------------------------------------------------------------- C01 / C18
+NAME_FLOW = ("fontir::ir::static_metadata::", "fontir::ir::{impl#18}", "fontbe::name::", "fontbe::fvar::", "fontbe::stat::",
+             "fea_rs::compile::output::", "fea_rs::compile::tables::name::", "fea_rs::compile::tables::stat::", "fontbe::features::{impl#12}::exec",
+             "fontbe::features::{impl#12}", "ufo2fontir::source::names", "glyphs2fontir::source::names", "fontir::ir::names")
+
+
+def check_c01(pid, tier, t0, replay_key):
+    import e1, e2
+    P = program()
+    tables = common.load_tables()
+    findings, obl, samples, st_h, _ = e2.run_h(P, tables)
+    fn_, on_, sn_, st_n = e2.rule_n(P, tables)
+    findings += fn_
+    obl += on_
+    samples += sn_
+    # the schedule half: every job reads the same values in every schedule (E1 R2/R5/R7 reused)
+    E = e1.E1(P)
+    M = e1.build_model(E)
+    f1, o1, s1, st1 = e1.run_rules(E, M, tables, tier)
+    keep = ("R2", "R2'", "R5", "R8", "R2-witness")
+    f1 = [f for f in f1 if f["rule"] in keep]
+    o1 = [o for o in o1 if o["rule"] in keep]
+    for f in f1:
+        f["key"] = "sched:" + f["key"]
+    findings += f1
+    obl += o1
+    st = base_stats(P)
+    st.update(st_h)
+    st.update(st_n)
+    st["schedule_pairs_checked"] = len(o1)
+    common.check_floors(pid, st, tables)
+    if tier == "thorough":
+        st["selftest"] = run_selftest(pid)
+    explanation = (
+        "Decides structural clauses of repeatable builds from the current tree. (H) Hash order never becomes data: every iteration of a std HashMap/"
+        "HashSet and every call of a workspace function that returns a hash-ordered sequence, in every function reachable from the entry points "
+        "(scheduler launch order and timing excluded with reasons), is followed through iterator adapters, collects, loops and (two levels of) "
+        "callees; a site is AUTO-SAFE when every flow ends in an order-insensitive consumer (count/any/all/min/max/integer sum, collect/extend/insert "
+        "into Hash*/BTree*/IntSet/Location, per-element mutation) or in a sequence that is totally sorted (sort/sort_unstable) in that function; "
+        "otherwise it must be AUDITED in tables/e2_hash_audit.json (function + iterated type + method + multiplicity + reason, with a re-checked "
+        "witness where the reason is 'sorted later' or 'keyed insert elsewhere') or it is reported. (N1) clock, environment, thread identity, "
+        "random state and addresses are consulted only in the audited functions; (N2) current_timestamp consults SOURCE_DATE_EPOCH before the "
+        "clock and has one caller; (N3) mutable/interior-mutable statics are the audited six; (N4) no rayon parallel iterators on the compile "
+        "path. Schedule independence reuses C02's forced-order result (R2/R5/R8). NOT decided: determinism of external crates (kurbo, write-fonts "
+        "packing), float evaluation order inside them, last-wins inserts into maps with colliding keys, input-dependent but deterministic orders.")
+    rule_text = "one obligation per hash-iteration site group, per nondeterminism-consulting function, per static, per reader/writer pair of the schedule half"
+    assumptions = ["IndexMap/IndexSet/BTreeMap/Vec preserve or define order; collect/insert into a map is order-insensitive (keys assumed not to collide with different values)",
+                   "audited sites are benign for the reasons recorded (read and confirmed on the pinned tree)"]
+    return common.finish(pid, tier, t0, findings, obl, samples, explanation, rule_text, st, assumptions, TRUSTED,
+                         f"./check {pid} --tier {tier}", replay_key)
+
+
+def check_c18(pid, tier, t0, replay_key):
+    import e2
+    P = program()
+    tables = common.load_tables()
+
+    def in_name_flow(fn):
+        return fn.startswith(NAME_FLOW) or "name" in fn.rsplit("::", 2)[-2:][0].lower() or fn.split("::")[1:2] in (["name"], ["fvar"], ["stat"])
+
+    findings, obl, samples, st_h, _ = e2.run_h(P, tables, scope_filter=in_name_flow, rule="H")
+    st = base_stats(P)
+    st.update(st_h)
+    st["name_flow_prefixes"] = list(NAME_FLOW)
+    common.check_floors(pid, st, tables)
+    if tier == "thorough":
+        st["selftest"] = run_selftest(pid)
+    explanation = (
+        "Decides one clause of C18 - 'the result does not depend on anything but the source': the hash-order rule of C01 (engine E2) restricted to "
+        "the name flow: name-id allocation and reuse in StaticMetadata::new / NameBuilder, the name table job (sort or BTreeMap merge of records), "
+        "fvar and STAT name references, fea-rs name-id handling (compile::output, tables::name, tables::stat) and the name-id remap in "
+        "FeatureCompilationWork. Each hash iteration there is auto-safe, audited with a witness, or reported (this found the find_map over "
+        "StaticMetadata.names that made the default instance's subfamily-name reuse random; repaired in 57ad74d). NOT decided: referential "
+        "integrity of name ids across fvar/STAT/feature parameters, the fallback chain for family/style/version strings (values).")
+    rule_text = "one obligation per hash-iteration site group inside the name flow"
+    return common.finish(pid, tier, t0, findings, obl, samples, explanation, rule_text, st, [], TRUSTED,
+                         f"./check {pid} --tier {tier}", replay_key)
+
+
 CHECKS = {
+    "C01": check_c01,
+    "C18": check_c18,
     "C13": check_c13,
     "C15": check_c15,
     "C02": check_c02,
